@@ -4,18 +4,27 @@
 #![allow(dead_code)]
 
 mod arith;
+mod codec;
 mod fam;
+mod frontends;
+mod gen;
 mod io;
 mod model;
 mod out;
 mod rng;
 mod topic;
+mod wire;
 
 use std::collections::HashMap;
 
 fn main() {
     // a panic inside the library is data (caught by io::guarded); keep the default hook quiet
-    std::panic::set_hook(Box::new(|_| {}));
+    // a panic of the harness itself is reported
+    std::panic::set_hook(Box::new(|info| {
+        if io::IN_GUARD.with(|g| g.get()) == 0 {
+            eprintln!("harness panic: {info}");
+        }
+    }));
     let args: Vec<String> = std::env::args().collect();
     if args.len() < 3 {
         eprintln!("usage: verif-harness record <area> [--key value]...");
@@ -45,6 +54,38 @@ fn main() {
         ("record", "topic") => {
             let mut o = out::Out::new(&outp, shard);
             topic::record_topic(&mut o, &tier, seed);
+            let n = o.seq;
+            let shards = o.finish();
+            println!("{{\"events\":{n},\"shards\":{shards}}}");
+        }
+        ("record", "roundtrip") | ("record", "lens") | ("record", "enc") => {
+            let mut o = out::Out::new(&outp, shard);
+            let profile = if cfg!(debug_assertions) { "debug" } else { "release" };
+            match area {
+                "roundtrip" => wire::record_roundtrip(&mut o, &tier, seed),
+                "lens" => wire::record_lens(&mut o, &tier, seed, profile),
+                _ => wire::record_enc(&mut o, &tier, seed),
+            }
+            let n = o.seq;
+            let shards = o.finish();
+            println!("{{\"events\":{n},\"shards\":{shards}}}");
+        }
+        ("record", "cut") | ("record", "dec3") | ("record", "poll") | ("record", "stream") | ("record", "fault") => {
+            let mut o = out::Out::new(&outp, shard);
+            match area {
+                "cut" => frontends::record_cut(&mut o, &tier, seed),
+                "dec3" => frontends::record_dec3(&mut o, &tier, seed),
+                "poll" => frontends::record_poll(&mut o, &tier, seed),
+                "stream" => frontends::record_stream(&mut o, &tier, seed),
+                _ => frontends::record_fault(&mut o, &tier, seed),
+            }
+            let n = o.seq;
+            let shards = o.finish();
+            println!("{{\"events\":{n},\"shards\":{shards}}}");
+        }
+        ("record", "vectors") => {
+            let mut o = out::Out::new(&outp, shard);
+            wire::record_vectors(&mut o, &get("in", ""), &get("mode", "roundtrip"), seed);
             let n = o.seq;
             let shards = o.finish();
             println!("{{\"events\":{n},\"shards\":{shards}}}");
